@@ -181,10 +181,94 @@ def pmLine (padSize addrLen maxDoc : Nat) (ws : List String) : String :=
     | _, _, _, _, _, _, _, _, _, _, _ => "bad-op"
   | _ => "bad-op"
 
+/-- `grpk <n> <gid> <ids> <lastRand>`: every member's group table after the announcement (the key
+generation does not touch the list), then `choseSubmitter` on it -/
+def grpkLine (ws : List String) : String :=
+  match ws with
+  | [n, gid, ids, r] =>
+    match n.toNat?, gid.toNat?, Query.hexList ids, r.toNat? with
+    | some n, some gid, some ids, some r =>
+      String.intercalate " " ((List.range n).map (fun k =>
+        let b := Eval.Book.run (ids.getD k []) [.grouping gid ids]
+        match Eval.Book.ids b gid with
+        | none => s!"{k}:unfinished"
+        | some l =>
+          match submitter l r with
+          | some id => s!"{k}:n={l.length} id " ++ toHex id
+          | none => s!"{k}:panic div0"))
+    | _, _, _, _ => "bad-op"
+  | _ => "bad-op"
+
+/-- one event of an `evs` line that starts a pipeline: the chain event (C01's event layer,
+`Query.requestOf`) and, for a URL query, what fetch + parse give -/
+def parseEvent (tok : String) : Option (Option Query.Event) :=
+  match tok.splitOn ":" with
+  | ["R", last, g] => do
+    let last ← last.toNat?
+    let g ← g.toNat?
+    pure (some (.updateRandom last g))
+  | ["U", q, last, seed, g] => do
+    let q ← q.toNat?
+    let last ← last.toNat?
+    let seed ← seed.toNat?
+    let g ← g.toNat?
+    pure (some (.requestUserRandom q last seed g))
+  | ["Q", q, last, g, sel, doc, parsed] => do
+    let q ← q.toNat?
+    let last ← last.toNat?
+    let g ← g.toNat?
+    let sel ← ofHex sel
+    let doc ← ofHex doc
+    let p ← Eval.parsedOfTok parsed
+    let res := match Eval.dataParse (Eval.recordedEngines p) doc sel with
+      | .ok b => some b
+      | _ => none
+    pure (some (.url q res last g))
+  | ["C", _] => some none      -- LogStartCommitReveal: handleCR, no pipeline
+  | ["K", _] => some none      -- LogPublicKeyAccepted
+  | ["X"] => some none         -- an event type the loop ignores
+  | _ => none
+
+/-- `evs <n> <me> <gid> <ids> <events>`: what member `me` sends / reports for every request event, in
+event order.  Each event is handled on its own: the handlers started by one event loop share nothing
+in the model – that the code's handlers do not disturb each other through the event objects they are
+handed is what the `evs` cases check. -/
+def evsLine (padSize addrLen : Nat) (ws : List String) : String :=
+  match ws with
+  | [n, me, gid, ids, evs] =>
+    match n.toNat?, me.toNat?, gid.toNat?, Query.hexList ids, (evs.splitOn ",").mapM parseEvent with
+    | some n, some me, some gid, some ids, some evs =>
+      let indexed := (List.range evs.length).zip evs
+      let outs := indexed.filterMap (fun (p : Nat × Option Query.Event) =>
+        match p.2 with
+        | none => none
+        | some ev =>
+          let k := p.1
+          let r := Query.requestOf ev
+          if ev.gid ≠ gid then some (s!"{k}:-", 0) else
+          match submitterIdx r.last ids.length, submitter ids r.last with
+          | some subI, some sub =>
+            match Query.contentFor padSize r sub with
+            | none => some (s!"{k}:-", if subI ≠ me then 1 else 0)
+            | some c =>
+              if subI ≠ me then some (s!"{k}:to={subI}:" ++ toHex c, 0)
+              else if n = 1 then
+                match stripResult addrLen c with
+                | .ok res => some (s!"{k}:rep=" ++ (if r.kind = .sys then "rand" else "data") ++ ":" ++ toHex res, 0)
+                | .tooShort => some (s!"{k}:-", 0)
+              else some (s!"{k}:-", 0)
+          | _, _ => some (s!"{k}:panic submitter", 0))
+      let nils := (outs.map (·.2)).foldl (· + ·) 0
+      String.intercalate " " (outs.map (·.1) ++ [s!"nil={nils}"])
+    | _, _, _, _, _ => "bad-op"
+  | _ => "bad-op"
+
 def stepLine (padSize addrLen maxDoc : Nat) (line : String) : Option String :=
   match words line with
   | "pm" :: rest => some (pmLine padSize addrLen maxDoc rest)
   | "fetch" :: rest => some (fetchLine maxDoc rest)
+  | "grpk" :: rest => some (grpkLine rest)
+  | "evs" :: rest => some (evsLine padSize addrLen rest)
   | _ => none
 
 end Dos.ContentPath
